@@ -37,7 +37,7 @@ DimPar(f, p, g) ==
     [] f = "Mader" -> [p_cj |-> dPrs, d_cj |-> dVel, u_piston |-> dVel, gamma |-> None0]
     [] f = "EPpiston" -> [G |-> dPrs, Y |-> dPrs, rho0 |-> dRho, up |-> dVel, c0 |-> dVel, s0 |-> None0, gamma |-> None0]
     [] f = "Kenamond1" -> [D |-> dVel, x_d |-> Len_, t_d |-> dTim]
-    [] f = "Kenamond2" -> [R |-> Len_, D1 |-> dVel, D2 |-> dVel, dets |-> Len_, t_d |-> dTim]
+    [] f = "Kenamond2" -> [R |-> Len_, D1 |-> dVel, D2 |-> dVel, dets |-> Len_, t_d |-> dTim, tshift |-> dTim]
     [] f = "Kenamond3" -> [R |-> Len_, D |-> dVel, x_d |-> Len_, t_d |-> dTim]
     [] f = "DSDcyl" -> [r_1 |-> Len_, r_2 |-> Len_, D_CJ_1 |-> dVel, D_CJ_2 |-> dVel,
                         alpha_1 |-> DN(0, 2, -1), alpha_2 |-> DN(0, 2, -1), t_d |-> dTim]
